@@ -146,7 +146,7 @@ func runC11(e *Env) {
 	})
 
 	// (c) equivalence on the unambiguous sub-language
-	e.RunCases("equivalence", e.N(40000, 2000000), 0, func(t *T) {
+	e.RunCases("equivalence", e.N(40000, 12000000), 0, func(t *T) {
 		r := t.R
 		gen := func() string {
 			n := r.IntN(8)
@@ -262,7 +262,7 @@ func runC11(e *Env) {
 
 	// (d) path source
 	atoms := []string{"a", "b", "%41", "%2F", "%20", ".", "x%2Fy", "%61"}
-	e.RunCases("path-source", e.N(6000, 300000), 0, func(t *T) {
+	e.RunCases("path-source", e.N(6000, 2000000), 0, func(t *T) {
 		r := t.R
 		n := 1 + r.IntN(3)
 		target := ""
